@@ -1038,20 +1038,39 @@ func (t tcPeer) close()                                  {}
 
 type tcCacher struct{ c types.Cacher }
 
-func (t tcCacher) add(k string) error { t.c.Put([]byte(k), []byte{}, 0); return nil }
+// kb: the caller's key buffer for ONE call; it is overwritten as soon as the call has returned (a caller is free to reuse its
+// buffer: the cacher must not keep a reference to it)
+func kb(k string) ([]byte, func()) {
+	b := []byte(k)
+	return b, func() {
+		for i := range b {
+			b[i] ^= 0xa5
+		}
+	}
+}
+
+func (t tcCacher) add(k string) error { b, done := kb(k); defer done(); t.c.Put(b, []byte{}, 0); return nil }
 func (t tcCacher) addSpan(k string, d time.Duration) error {
-	t.c.Put([]byte(k), []byte{}, 0)
+	b, done := kb(k)
+	defer done()
+	t.c.Put(b, []byte{}, 0)
 	return nil
 }
 func (t tcCacher) upsert(k string, d time.Duration) error {
-	t.c.Put([]byte(k), []byte{}, 0)
+	b, done := kb(k)
+	defer done()
+	t.c.Put(b, []byte{}, 0)
 	return nil
 }
-func (t tcCacher) put(k string, v []byte)              { t.c.Put([]byte(k), v, 0) }
-func (t tcCacher) hoa(k string, v []byte) (bool, bool) { return t.c.HasOrAdd([]byte(k), v, 0) }
-func (t tcCacher) rm(k string)                         { t.c.Remove([]byte(k)) }
-func (t tcCacher) sweep()                              {}
-func (t tcCacher) has(k string) bool                   { return t.c.Has([]byte(k)) }
+func (t tcCacher) put(k string, v []byte) { b, done := kb(k); defer done(); t.c.Put(b, v, 0) }
+func (t tcCacher) hoa(k string, v []byte) (bool, bool) {
+	b, done := kb(k)
+	defer done()
+	return t.c.HasOrAdd(b, v, 0)
+}
+func (t tcCacher) rm(k string)       { b, done := kb(k); defer done(); t.c.Remove(b) }
+func (t tcCacher) sweep()            {}
+func (t tcCacher) has(k string) bool { b, done := kb(k); defer done(); return t.c.Has(b) }
 func (t tcCacher) clear()                              { t.c.Clear() }
 func (t tcCacher) close()                              { _ = t.c.Close() }
 
